@@ -164,11 +164,17 @@ def run(tier):
         ds = ld.new(list(range(n))).shuffle(True, rng=np.random.RandomState(r.randint(0, 999)), buffer_size=B)
         a, b = iter(ds), iter(ds)
         oa, ob = [], []
-        for _k in range(n):
+
+        def pull(it, out):
+            try:
+                out.append(int(next(it)))
+            except StopIteration:
+                pass
+        for _k in range(n + 1):
             if r.random() < 0.5:
-                oa.append(int(next(a))); ob.append(int(next(b)))
+                pull(a, oa); pull(b, ob)
             else:
-                ob.append(int(next(b))); oa.append(int(next(a)))
+                pull(b, ob); pull(a, oa)
         if sorted(oa) != list(range(n)) or sorted(ob) != list(range(n)):
             failures.append(dict(kind='history', summary=f'two local-shuffle iterators in flight: {oa} / {ob}', config=dict(kind='local2', n=n, B=B)))
     # (a') frozen copies of a reshuffle object in flight (explicit copy(freeze=True), and the implicit ones taken by catch / lazy apply
